@@ -102,6 +102,18 @@ def gen(tier, rng):
         yield {"kind": "raw", "bytes": b"HTTP/1.1 " + interim + b"\r\n" + good_hdrs + b"Sec-WebSocket-Protocol: chat\r\n\r\nHTTP/1.1 101 SP\r\nUpgrade: websocket\r\nConnection: Upgrade\r\n\r\n", "expect_connected": False}
         yield {"kind": "raw", "bytes": b"HTTP/1.1 " + interim + b"\r\n\r\nHTTP/1.1 101 SP\r\n" + good_hdrs + b"\r\n", "expect_connected": False}
     yield {"kind": "raw", "bytes": b"HTTP/1.1 101 SP\r\n" + good_hdrs + b"\r\nHTTP/1.1 500 Late\r\n\r\n", "expect_connected": True}
+    # 8. very long header lines: a line is one header however long it is, so the tail of a long line never counts as a header of
+    #    its own (here the response lacks Upgrade, or carries no accept value, except inside the padding line's tail)
+    acc_line = b"Sec-WebSocket-Accept: " + accept_for(key) + b"\r\n"
+    for e in range(6, 17):
+        for d in ((-2, -1, 0, 1, 2) if tier != "quick" or e >= 9 else (0,)):
+            k = max(1, (1 << e) - len(b"X-Padding: ") + d)
+            yield {"kind": "raw", "bytes": b"HTTP/1.1 101 SP\r\nConnection: Upgrade\r\n" + acc_line + b"X-Padding: " + b"a" * k + b"Upgrade: websocket\r\n\r\n",
+                   "expect_connected": False, "long_line": k}
+            if d == 0:
+                yield {"kind": "raw", "bytes": b"HTTP/1.1 101 SP\r\nConnection: Upgrade\r\nUpgrade: websocket\r\nX-Padding: " + b"a" * k + acc_line + b"\r\n",
+                       "expect_connected": False, "long_line": k}
+    yield {"kind": "raw", "bytes": b"HTTP/1.1 101 SP\r\nX-Padding: " + b"a" * 20000 + b"\r\n" + good_hdrs + b"\r\n", "expect_connected": True, "long_line": 20000}
     # 6. random mixtures
     for _ in range(600 if tier == "quick" else 5000):
         hs = rng.choice(list(variants(key)))
@@ -151,7 +163,12 @@ def run(ctx):
     rng = random.Random(ctx.seed)
     cases = list(gen(ctx.tier, rng))
     scs = [build(c) for c in cases]
-    model = ctx.model.run_parallel([connrun.scenario_line(s) for s in scs]) if ctx.model else [None] * len(scs)
+    # the extracted model reads a line in time quadratic in its length: the longest lines are judged by their expectation alone
+    with_model = [i for i, c in enumerate(cases) if c.get("long_line", 0) <= 1100]
+    model = [None] * len(scs)
+    if ctx.model:
+        for i, m in zip(with_model, ctx.model.run_parallel([connrun.scenario_line(scs[i]) for i in with_model])):
+            model[i] = m
     spec_reqs, spec_idx = [], []
     runs = []
     for i, (c, sc) in enumerate(zip(cases, scs)):
@@ -164,7 +181,7 @@ def run(ctx):
     for i, (c, sc) in enumerate(zip(cases, scs)):
         line, info = runs[i]
         pub = {"case": {k: (v if not isinstance(v, list) else [tuple(x.decode("latin-1") if isinstance(x, bytes) else x for x in h) if isinstance(h, tuple) else h for h in v]) for k, v in c.items()}}
-        T.case(connrun.scenario_line(sc)[:300], nontrivial=True, bucket=c["kind"],
+        T.case(connrun.scenario_line(sc)[:300], nontrivial=True, bucket=c["kind"] + ("-long-line" if "long_line" in c else ""),
                sample={"case": str(pub["case"])[:200], "line": line[:160]})
         ok = line.startswith("ok;")
         fields = dict(f.split("=", 1) for f in line.split(";")[1:])
@@ -189,9 +206,12 @@ def run(ctx):
                        {"site": "connect", "cls": "redirect-handling", "over": c["n"] > c["limit"]},
                        what="redirects are followed at most redirect_limit times and are never success")
         if c["kind"] == "raw" and ok != c["expect_connected"]:
-            T.fail("spec", {"case": {"kind": "raw", "bytes": c["bytes"].decode("latin-1")}}, f"connected={c['expect_connected']}", line[:200],
-                   {"site": "connect", "cls": "accepted-invalid-response" if ok else "rejected-valid-response", "multi_head": True},
-                   what="with several response heads in the stream, the answer to the handshake is the first head alone")
+            shown = re.sub(r"a{40,}", lambda m: "a*%d" % len(m.group(0)), c["bytes"].decode("latin-1"))
+            T.fail("spec", {"case": {"kind": "raw", "bytes": shown}}, f"connected={c['expect_connected']}", line[:200],
+                   {"site": "connect", "cls": "accepted-invalid-response" if ok else "rejected-valid-response", "multi_head": "long_line" not in c,
+                    "long_line": "long_line" in c},
+                   what=("a header line of %d padding bytes: its tail is not a header of its own" % c["long_line"]) if "long_line" in c else
+                   "with several response heads in the stream, the answer to the handshake is the first head alone")
         if c["kind"] == "cut" and ok:
             T.fail("spec", pub, "connect() raises on a truncated response", line[:200], {"site": "connect", "cls": "truncated-accepted"})
         # (b) failure is clean
@@ -206,7 +226,7 @@ def run(ctx):
             T.fail("corr", {"line": connrun.scenario_line(sc)[:700]}, model[i][:400], line[:400], {"site": "wsconnect"})
     T.validated = len(cases)
     return T.result(
-        "response heads: 7 Upgrade x 6 Connection x 8 Sec-WebSocket-Accept variants (right, for another key, truncated, "
+        "header lines of 2^6..2^16 bytes whose tail reads like a missing header; response heads: 7 Upgrade x 6 Connection x 8 Sec-WebSocket-Accept variants (right, for another key, truncated, "
         "case-swapped, garbled, empty, missing, padded), 15 status codes, offered/selected subprotocol combinations, redirect "
         "chains of length 0..5 (8) against limits 0..4 (6) ending in a valid or invalid response, end of stream and timeout at "
         "every byte of a valid response, random mixtures with duplicate headers; through the real connect() over a simulated "
